@@ -18,12 +18,23 @@ CHECK = {
                             "ellipsoid_tiny_eccentricity",
                             "value_semantics", "value_semantics_copy_source_overwritten",
                             "value_semantics_move_source_overwritten", "value_semantics_copy_source_destroyed",
-                            "value_semantics_vector_growth"],
+                            "value_semantics_vector_growth", "value_semantics_copy_assigned",
+                            "value_semantics_move_assigned", "value_semantics_self_assigned",
+                            "value_semantics_copy_source_kept_both_used",
+                            "constructor_overloads", "constructor_ctor_six_scalars_then_clobbered",
+                            "constructor_ctor_constants_struct_then_clobbered", "static_GRS80_object_passed",
+                            "long_history_2p8_calls", "long_history_2p16_calls",
+                            "extreme_semi_major_axis", "extreme_false_origin", "signed_zero_parameter"],
     "required_oracles": ["conformal.h_over_k", "conformal.orthogonality", "scale.standard_parallel_k",
                          "scale.tangent_parallel_k", "origin.to_false_origin_m", "central_meridian.x_m",
-                         "roundtrip.lat_rad", "roundtrip.lon_rad", "forward.vs_snyder_m"],
+                         "roundtrip.lat_rad", "roundtrip.lon_rad", "forward.vs_snyder_m",
+                         "stability.kept_results_unchanged", "stability.reevaluation_bit_identical",
+                         "stability.after_neighbouring_facilities",
+                         "aliasing.static_helpers_same_object_for_all_arguments",
+                         "aliasing.constructor_one_variable_for_xs_and_ys", "shared_state.static_GRS80_unchanged"],
     "required_counters": ["loop_hook_calls", "points", "roundtrip_points_north", "roundtrip_points_south",
-                          "points_evaluated_on_both_siblings_in_turn", "sibling_sets_with_bit_identical_n_and_e_but_other_c"],
+                          "points_evaluated_on_both_siblings_in_turn", "sibling_sets_with_bit_identical_n_and_e_but_other_c",
+                          "interference_probes", "points_at_whole_degrees", "points_with_equal_offsets"],
     "rule": "case = one projection parameter set + 25 (quick) / 40 (thorough) points.  Sets: secant with standard "
             "parallels 1..20 deg apart inside 15..75 deg (ends and the 1 deg / 20 deg gaps included, either order), "
             "origin latitude on / between / up to 3 deg outside the parallels; tangent with latitude0 in 15..75 deg and "
@@ -40,6 +51,16 @@ CHECK = {
             "eccentricities down to 1e-9 with a continuous semi-major axis.  For 30 % of the cases the converter under test "
             "is not constructed in place but is a copy / a moved-to object whose source (a std::optional slot, a heap object, "
             "a growing std::vector) is then overwritten with ANOTHER zone, destroyed, or relocated before any oracle runs.  "
+            "Further constructions: copy-/move-/self-assigned converter, a copy used in turn with its untouched source, "
+            "the six-scalar and the (constants struct, e) constructors fed by reference from storage that is clobbered "
+            "afterwards; GRS80 sets pass the library's static EarthEllipsoid::GRS80 object half of the time.  Extremes (2 % "
+            "each): the whole figure scaled by 1e-100..1e100 or to a = 1 (the unchanged code is finite for scales 1e-160.."
+            "1e140, limited by a*a in EarthEllipsoid; length tolerances scale with a / 6378137); false origins up to 3e9 m "
+            "(above ~1e10 m one ulp of an easting is itself a sizeable part of 1e-11 rad at 83 deg); -0.0 for zero longitude0 / "
+            "x0 / y0.  Point offsets include exact +-0, whole degrees, equal dlat = dlon, one denormal.  2 % / 0.3 % of the "
+            "cases make 2^8+k / 2^16+k forward calls before the first observation.  Per case: results bound by const "
+            "reference before the first point are compared at the end and re-evaluated bit-for-bit; every 4th point is "
+            "re-evaluated after stream formatting, ECEF conversions on the shared GRS80 object and the static helpers.  "
             "non-trivial = parameter set other than the two the unit tests pin a value for (CC46, Lambert I), or any "
             "interleaved pair or non-direct construction",
     "level_text": "exploration: the real LambertConverter is built through its public secant / tangent constructors for "
@@ -57,7 +78,11 @@ CHECK = {
                     "finite-difference scales (Richardson, steps 2e-4 / 1e-4 rad) resolve 1e-11 relative; the stated equalities are tested to 1e-9",
                     "longitudes are not wrapped: longitude0 is kept within +-149 deg so that every point of the +-30 deg box is inside [-pi, pi]",
                     "a standard parallel farther than 8 deg from latitude0 is outside the quantified box and is not sampled for the k = 1 oracle",
-                    "value semantics: copies are exercised through copy/move construction only (no converter assignment is used)",
+                    "value semantics: assignment variants are compiled only if the class is assignable (otherwise their categories stay empty and the run is inconclusive)",
+                    "absolute length tolerances (1e-7 m origin / meridian, 1e-6 m against the reference) are meant at Earth scale and scale with a / 6378137; "
+                    "'maps to (x0, y0)' is judged to max(1e-7 m, 8 ulp-units of |x0|+|y0|+|rho0|), the best a double result can do at a large false origin",
+                    "finite-difference oracles are skipped (counted) where 4 eps |coordinate| / (1e-4 rad * M) > 8e-11 (a tenth of their tolerance), i.e. for coordinates beyond ~6e7 m at Earth scale",
+                    "false origins beyond 3e9 m and figures scaled beyond 1e+-100 are not explored; repeated evaluation is required to be bit-identical (pure functions)",
                     "cross-object interference is looked for on one thread only, between two converters alive at a time that differ in a single parameter",
                     "g++ 12 ASan+UBSan runtime; asserts live (no -DNDEBUG)"],
 }
